@@ -3,7 +3,7 @@ CONSTANTS
  MaxUpdates = 0
  MaxReinit = 0 BSChoices = {} FixBlockSize = TRUE  FixLostWorker = TRUE
  CountCalls = TRUE
- NW = 2  BS = 2  Total = 3  Chunk = 1  HdrSz = 1  TailSz = 2
+ NW = 2  NW0 = 2  NWChoices = {2}  BS = 2  Total = 3  Chunk = 1  HdrSz = 1  TailSz = 2
  Timeout = FALSE  Spurious = TRUE  MayFail = FALSE
  Gives = {0, 1, 100}  Spaces = {0, 1, 100}
  FlushActs = {}
